@@ -35,10 +35,11 @@ KCLANG = ['-mllvm', '-inline-threshold=100000000'] + sum([['-mllvm', '-force-att
     '_ZN6photon13thread_usleepENS_7TimeoutE', '_ZN6photon12thread_yieldEv', '_ZN6photonL26prelocked_thread_interruptEPNS_6threadEi']], [])
 KROOTS = ['^@thread_entry_', '^@K_', '^@world_']
 
-def kjob(name, src, nt, slices, defines, mode='coop', timeout=900, desc='', unwind=4, mem_gb=12):
-    return Job(name, src, 'sched', roots=KROOTS, defines=['NT=%d' % nt, 'KN=%d' % nt] + defines, clang=KCLANG,
+def kjob(name, src, nt, slices, defines, mode='coop', timeout=900, desc='', unwind=4, mem_gb=12, kn=None):
+    # kn > nt: additional thread objects that never run (constructed sleepers: pure queue state)
+    return Job(name, src, 'sched', roots=KROOTS, defines=['NT=%d' % nt, 'KN=%d' % (kn or nt)] + defines, clang=KCLANG,
                ir2c=KSTUB + (['--cs-none'] if mode == 'coop' else ['--cs-atomic-only']), shims=['libc.c', 'sched.c'],
-               cbmc=['-DNT=%d' % nt, '-DSLICES=%d' % slices, '-DVERIF_SHARED_ERRNO'], unwind=max(unwind, nt + 1), unwindset=['f_sched.1:%d' % (slices + 1)], nochecks=False, timeout=timeout, mem_gb=mem_gb,
+               cbmc=['-DNT=%d' % nt, '-DSLICES=%d' % slices, '-DVERIF_SHARED_ERRNO'] + (['-DVERIF_SPIN_IS_DEADLOCK'] if mode == 'coop' else []), unwind=max(unwind, (kn or nt) + 1), unwindset=['f_sched.0:%d' % (slices + 1)], nochecks=False, timeout=timeout, mem_gb=mem_gb,
                desc=desc, bounds='%d threads, <= %d execution slices, %s scheduling' % (nt, slices, 'cooperative (switch at blocking calls)' if mode == 'coop' else 'pre-emptive at atomic operations'))
 
 # ---- contract-level sync layer (rt/ksync.h): clients of mutex / cv / semaphore
@@ -57,8 +58,8 @@ KSYNC_IR2C = ['--thread', '^@thread_entry_',
 def ksjob(name, src, nt, slices, defines, timeout=900, desc='', unwind=4, mem_gb=12, shims=(), preempt=False, stuck_legal=False, extra_ir2c=()):
     return Job(name, src, 'sched', roots=KROOTS, defines=['NT=%d' % nt, 'KN=%d' % nt] + defines, clang=['-mllvm', '-inline-threshold=100000000'],
                ir2c=KSYNC_IR2C + list(extra_ir2c) + (['--cs-atomic-only'] if preempt else ['--cs-none']), shims=['libc.c', 'sched.c'] + list(shims),
-               cbmc=['-DNT=%d' % nt, '-DSLICES=%d' % slices] + (['-DVERIF_STUCK_IS_LEGAL'] if stuck_legal else []), unwind=max(unwind, nt + 1),
-               unwindset=['f_sched.1:%d' % (slices + 1)], timeout=timeout, mem_gb=mem_gb, desc=desc,
+               cbmc=['-DNT=%d' % nt, '-DSLICES=%d' % slices] + (['-DVERIF_STUCK_IS_LEGAL'] if stuck_legal else []) + ([] if preempt else ['-DVERIF_SPIN_IS_DEADLOCK']), unwind=unwind,   # rt/ksync.h and rt/sched.c are loop-free besides the slice loop
+               unwindset=['f_sched.0:%d' % (slices + 1)], timeout=timeout, mem_gb=mem_gb, desc=desc,
                bounds='%d threads, <= %d execution slices, mutex/cv/semaphore as contracts (rt/ksync.h), %s' % (nt, slices, 'pre-emption at atomic operations' if preempt else 'switch at blocking calls'))
 
 _spin_jobs = jobs
